@@ -26,7 +26,7 @@ RULE = ('Producer: key d and 32-byte digests from boundary-biased classes (0.., 
         'asked 2..5 questions with other digests / keys / the stored key - every answer is the ECDSA verdict of '
         'that call. Non-trivial = producer case with a boundary-class key or digest, an explicit '
         'nonce or a non-default hash type; every verifier case that is not the plain valid triple; distinct by all '
-        'case fields.')
+        'case fields. [producer cases with a crafted raw s: digest solved from key, nonce and an s on the low-S boundary n//2 .. 2^255]')
 ASSUMPTIONS = ['ref/ec.py implements secp256k1 ECDSA verification and BIP66 correctly (self-tested in ref/selftest.py)',
                '"standard ECDSA" = textbook verification on the 32-byte digest read as a big-endian integer, public '
                'key = SEC1 compressed/uncompressed encoding of a curve point with coordinates < p (hybrid 06/07 keys '
